@@ -170,13 +170,16 @@ impl ClientVisibility {
                     // 'WhitelistInfo::Visible' in `Self::update`.
                     // This allows us to avoid accessing the whitelist's `added` field in
                     // `Self::visibility_state`.
-                    if *list.entry(entity).or_insert(WhitelistInfo::JustAdded)
+                    if self.removed.remove(&entity) {
+                        // The entity was visible at the last tick and hidden during this one,
+                        // so the client still has it: just restore the entry.
+                        list.insert(entity, WhitelistInfo::Visible);
+                    } else if *list.entry(entity).or_insert(WhitelistInfo::JustAdded)
                         == WhitelistInfo::JustAdded
                     {
                         // Do not mark an entry as newly added if the entry was already in the list.
                         self.added.insert(entity);
                     }
-                    self.removed.remove(&entity);
                 } else {
                     // If the entity is not in the whitelist, do nothing.
                     if list.remove(&entity).is_none() {
